@@ -55,6 +55,15 @@ func c12Scenarios(thorough bool) []c12Scenario {
 		return map[string]interface{}{"a": map[string]interface{}{"b": map[string]interface{}{"c": vals, "d": map[string]interface{}{"e": map[string]interface{}{"f": vals}}}}}
 	}
 	deeps := []interface{}{deep("x", "y", "a"), deep("a"), deep("q", "a", "z", "w")}
+	// the same with MAPS behind the 3- and 5-segment selectors (the map arm of the quantifier builds its element paths separately from the list arm)
+	deepM := func(kv ...string) map[string]interface{} {
+		m := map[string]interface{}{}
+		for i := 0; i+1 < len(kv); i += 2 {
+			m[kv[i]] = kv[i+1]
+		}
+		return map[string]interface{}{"a": map[string]interface{}{"b": map[string]interface{}{"c": m, "d": map[string]interface{}{"e": map[string]interface{}{"f": m}}}}}
+	}
+	deepMs := []interface{}{deepM("k1", "x", "k2", "a"), deepM("k3", "a"), deepM("k0", "q", "k4", "z", "k5", "a")}
 	shared := []interface{}{d1}
 	kinds := []interface{}{map[string]interface{}{"n": 7, "m": []int{7}}, map[string]interface{}{"n": 7.0, "m": []float64{7}}, map[string]interface{}{"n": uint8(7), "m": []interface{}{7, 7.0, float32(7)}}, map[string]interface{}{"n": "7", "m": []string{"7"}}}
 	typed := []interface{}{map[string]interface{}{"n": []int{7, 0}}, map[string]interface{}{"n": []float64{0, 1.5}}, map[string]interface{}{"n": []bool{false}}}
@@ -79,6 +88,9 @@ func c12Scenarios(thorough bool) []c12Scenario {
 		{name: "concurrent creation 2x1", src: "s matches `a+` or t == `b`", create: true, threads: 2, ops: 1, data: mixed, bound: -1},
 		{name: "quantifier over a 3-segment selector 2x1", src: "any a.b.c as x { x == `a` }", threads: 2, ops: 1, data: deeps, bound: -1},
 		{name: "quantifier over a 5-segment selector 2x2", src: "all a.b.d.e.f as i, x { x != `nope` and i != 7 }", threads: 2, ops: 2, data: deeps, bound: 2},
+		{name: "quantifier over a map behind a 3-segment selector 2x1", src: "any a.b.c as k, v { v == `a` and k != `k9` }", threads: 2, ops: 1, data: deepMs, bound: -1},
+		{name: "quantifier (value only) over a map behind a 5-segment selector 2x2", src: "all a.b.d.e.f as _, v { v != `nope` }", threads: 2, ops: 2, data: deepMs, bound: 2},
+		{name: "map inside list quantifier over deep selectors 2x1", src: "any a.b.c as _, v { any a.b.d.e.f as k, w { v == w and k != `` } }", threads: 2, ops: 1, data: deepMs, bound: 2},
 		{name: "nested quantifiers over deep selectors 2x1", src: "any a.b.c as x { any a.b.d.e.f as y { x == y } }", threads: 2, ops: 1, data: deeps, bound: 2},
 		// error paths: a pattern that never compiles (first use and steady state), a literal that never coerces, absent fields - the calls fail, sharing must still be safe
 		{name: "invalid pattern 2x1 first use", src: "s matches `(`", threads: 2, ops: 1, data: shared, bound: -1},
